@@ -162,6 +162,8 @@ def mask_candidates(m, q):
 
 def analyse_measure_like(prog, m, amp, q, sp, KS, KP):
     """Walk the top-level statements of a measure-shaped function and extract its ingredients."""
+    from ..knorm import normalise
+    m = normalise(prog, m)      # helpers (probability sums, the draw, range checks) inlined; see K-NORM
     info = {'p1_init_zero': False, 'bit_is_1_shl_q': False, 'dist_ok': False, 'draw_ok': False, 'res_ok': False, 'returns_res': False,
             'dist_txt': '', 'draw_txt': '', 'res_txt': '', 'acc': {}, 'collapse': {}}
     stmts = m.body['body']
@@ -173,10 +175,11 @@ def analyse_measure_like(prog, m, amp, q, sp, KS, KP):
     res_decl = None
     norm_decl = None
     late_doubles = []     # doubles defined after the draw: evaluated per outcome case
+    late_cases = []
     for s in stmts:
         if s['k'] == 'decls':
             for v in s['d']:
-                t = v['type']
+                t = v['type'][6:] if v['type'].startswith('const ') else v['type']
                 if t in ('unsigned long', 'size_t'):
                     try:
                         term = F.fold(v['init'])
@@ -207,6 +210,9 @@ def analyse_measure_like(prog, m, amp, q, sp, KS, KP):
                     if SX.is_node(init) and r_id and any(x['k'] == 'ref' and x.get('id') == r_id for x in SX.walk(init)):
                         res_id = v['id']
                         res_decl = v
+                    elif SX.is_node(init) and res_id is not None and any(
+                            x['k'] == 'ref' and x.get('id') in ([res_id] + [c_[0]['id'] for c_ in late_cases]) for x in SX.walk(init)):
+                        late_cases.append((v, t))      # `const bool keepSet = res == 1;` — evaluated per outcome case
         elif s['k'] == 'for':
             loops.append(s)
     p1_id = None
@@ -242,6 +248,11 @@ def analyse_measure_like(prog, m, amp, q, sp, KS, KP):
         ids = set(accs[0]) | set(accs[1])
         if len(ids) == 0:
             raise PartialSweep('%s: the first sweep accumulates nothing (no `p += |amplitude|²` under the bit test)' % m.short, loops[0].get('ln'))
+        if len(ids) > 1 and res_decl is not None:
+            # several sums are kept (a shared helper returns both branch weights): p1 is the one the outcome is decided by
+            used = {x.get('id') for x in SX.walk(res_decl['init']) if x['k'] == 'ref'} & ids
+            if len(used) == 1:
+                ids = used
         if len(ids) != 1:
             raise KP.NotPairwise('expected one accumulator, found %d' % len(ids))
         p1_id = list(ids)[0]
@@ -274,6 +285,8 @@ def analyse_measure_like(prog, m, amp, q, sp, KS, KP):
             it.b = 0
             for v in late_doubles:
                 it.scalars[v['id']] = it.amp_expr(v['init'])
+            for v, t in late_cases:
+                it.cases[v['id']] = it.cond(v['init']) if t == 'bool' else it.val(v['init'])
             if l2[0] == 'flat':
                 for b in (0, 1):
                     cells, acc = it.run(l2[2], b)
